@@ -225,8 +225,10 @@ def k_many(ctx, seed):
     ctx.case("many_telecommands", seed, sample=case)
     a0, c0 = r.getrandbits(11) & 0x7F8, r.getrandbits(14) & 0x3F00
     specs = [(a0 + da, c0 + dc, ver, fl) for da in range(4) for dc in range(0, 96) for ver in (0, r.choice((1, 5, 7))) for fl in (3,)]
+    no_shf = set(r.sample(range(len(specs)), len(specs) // 4))          # a quarter of them without the secondary-header flag (type and flag bits differ)
     r.shuffle(specs)
     specs = specs[:400]
+    no_shf = {i for i in no_shf if i < 400}
     v = PusVerificator()
     tcs = {}
     finished_keys = []
@@ -239,10 +241,11 @@ def k_many(ctx, seed):
             for key in r.sample(list(tcs), 3):
                 attempt(v.add_tm, create_acceptance_failure_tm(0x33, tcs[key], FailureNotice(PacketFieldEnum.with_byte_size(1, 5), b""), b""))
                 finished_keys.append(key)
-        h = SpacePacketHeader(PacketType.TC, a, c, 6, True, SequenceFlags(fl), ver)
+        shf = n_reg not in no_shf
+        h = SpacePacketHeader(PacketType.TC, a, c, 6, shf, SequenceFlags(fl), ver)
         tc = PusTc.from_composite_fields(h, PusTcDataFieldHeader(17, 1), b"")
         key = int.from_bytes(bytes(tc.pack())[:4], "big")
-        assert key == int.from_bytes(_P.request_id(ver, 1, 1, a, fl, c), "big")
+        assert key == int.from_bytes(_P.request_id(ver, 1, int(shf), a, fl, c), "big")
         ok, res = attempt(v.add_tc, tc)
         if not ctx.check("tracker.add_tc", ok and res is True, "distinct_telecommand_refused_as_duplicate", "many", dict(case, spec=[a, c, ver, fl]), observed=repr(res)):
             return
